@@ -52,24 +52,24 @@ type modeStat struct {
 
 type driver struct {
 	root, harness, work string
-	prop, tier         string
-	seed               uint64
-	bins               map[string]string // build|go -> path
-	binTagged          map[string]bool
-	mu                 sync.Mutex
-	counters           map[string]int64
-	maxes              map[string]int64
-	distinct           map[string]map[uint64]struct{}
-	nontrivial         map[uint64]struct{}
-	samples            []any
-	violations         []core.Violation
-	inconclusive       []string
-	notes              map[string]string
-	evaluations        int64
-	jobSeq             int
-	buildS             float64
-	verbose            bool
-	param              string
+	prop, tier          string
+	seed                uint64
+	bins                map[string]string // build|go -> path
+	binTagged           map[string]bool
+	mu                  sync.Mutex
+	counters            map[string]int64
+	maxes               map[string]int64
+	distinct            map[string]map[uint64]struct{}
+	nontrivial          map[uint64]struct{}
+	samples             []any
+	violations          []core.Violation
+	inconclusive        []string
+	notes               map[string]string
+	evaluations         int64
+	jobSeq              int
+	buildS              float64
+	verbose             bool
+	param               string
 }
 
 func goEnv(extra ...string) []string {
@@ -309,6 +309,7 @@ type raceReport struct {
 }
 
 var reFrameLine = regexp.MustCompile(`^\s{2}(\S.*)\(.*\)\s*$`)
+
 type bracketStripper struct{}
 
 // ReplaceAllString removes [...] groups (generic instantiations), nesting included.
